@@ -319,7 +319,11 @@ fn documented(name: &str, a: &[Variable], items: Option<&[Variable]>) -> Option<
             _ => return None,
         },
         "std.convert.parse_int" => opt_i(naive_parse_int(st(&a[0]))),
-        "std.convert.to_string" => s(render(&a[0], true)?),
+        // only what the documentation implies: ints, bools and () read as their literal, a string as itself
+        "std.convert.to_string" => match &a[0] {
+            Variable::Int(_) | Variable::Bool(_) | Variable::Void | Variable::String(_) => s(render(&a[0], true)?),
+            _ => return None,
+        },
         "std.string.split" => arr_s(naive_split(st(&a[0]), st(&a[1]))),
         "std.string.replace" => s(naive_replace(st(&a[0]), st(&a[1]), st(&a[2]))),
         "std.string.contains" => {
